@@ -930,6 +930,148 @@ pub fn run(args: &Args) -> i32 {
         sub.insert("literals_header_writer".into(), json!({"raw_lengths": lens.len(), "compressed_samples": n}));
     }
 
+    // --- boundary sizes through the whole decoder (the parsers above are checked in isolation; the limits of the
+    //     format are enforced, and the largest legal sizes accepted, only by the block decoder around them)
+    if want("boundary") {
+        use std::io::Read as _;
+        let frame_of = |block_type: u8, declared: u32, body: &[u8]| -> Vec<u8> {
+            // window descriptor 0x38 = 128 KiB, no checksum, no content size
+            let mut f = vec![0x28, 0xB5, 0x2F, 0xFD, 0x00, 0x38];
+            let bh: u32 = 1 | (u32::from(block_type) << 1) | (declared << 3);
+            f.extend_from_slice(&bh.to_le_bytes()[..3]);
+            f.extend_from_slice(body);
+            f
+        };
+        let decode = |frame: &[u8]| -> Result<Result<Vec<u8>, String>, Panicked> {
+            catch(|| {
+                let mut out = Vec::new();
+                match ruzstd::decoding::StreamingDecoder::new(frame) {
+                    Err(e) => Err(format!("{e:?}")),
+                    Ok(mut d) => d.read_to_end(&mut out).map(|_| out).map_err(|e| format!("{e:?}")),
+                }
+            })
+        };
+        // (what, frame, Some(expected content) | None = must be refused)
+        let mut cases: Vec<(String, Vec<u8>, Option<Vec<u8>>)> = Vec::new();
+        // literals written by the compressor's own literals encoder, at the edges of every size format and at the block maximum
+        let mut r = Rng::for_case(args.seed, 14, 99);
+        for &n in &[6usize, 31, 32, 1023, 1024, 1025, 4095, 4096, 16383, 16384, 16385, 65535, 65536, 131070, 131071, 131072] {
+            for alpha in [2u32, 5, 40] {
+                let mut lits: Vec<u8> = (0..n).map(|_| {
+                    // skewed so that Huffman coding always pays off
+                    let x = r.below(u64::from(alpha) * u64::from(alpha)) as f64;
+                    x.sqrt() as u8
+                }).collect();
+                lits[0] = 0;
+                lits[1] = 1;
+                let sec = match catch(|| enc::compress_literals(&lits, None)) {
+                    Ok((sec, _)) => sec,
+                    Err(p) => {
+                        mismatch(&rec, "boundary", "compress_literals", json!({"len": n, "alphabet": alpha}), format!("panic {}", p.what), "a literals section".into());
+                        continue;
+                    }
+                };
+                let mut body = sec;
+                body.push(0); // no sequences
+                if body.len() <= MAX_BLOCK as usize {
+                    cases.push((format!("compressor literals n={n} alphabet={alpha}"), frame_of(2, body.len() as u32, &body), Some(lits)));
+                }
+            }
+        }
+        // RLE literals: every size format at its edges, the block maximum, and just above it
+        for &(sf, n) in &[(0u8, 0u32), (0, 31), (1, 32), (1, 4095), (3, 4096), (3, 131071), (3, 131072), (3, 131073), (3, 262144), (3, 1048575), (1, 0), (3, 0), (3, 31)] {
+            let mut body = spec_write_lit_header(1, sf, n, 0);
+            body.push(0x5A);
+            body.push(0);
+            let want = if n <= MAX_BLOCK { Some(vec![0x5A; n as usize]) } else { None };
+            cases.push((format!("rle literals sf={sf} n={n}"), frame_of(2, body.len() as u32, &body), want));
+        }
+        // raw literals filling the block exactly (block content = 128 KiB: 3 header + n + 1)
+        for &n in &[MAX_BLOCK - 4, MAX_BLOCK - 5] {
+            let lits: Vec<u8> = (0..n).map(|i| (i * 7 + i / 251) as u8).collect();
+            let mut body = spec_write_lit_header(0, 3, n, 0);
+            body.extend_from_slice(&lits);
+            body.push(0);
+            cases.push((format!("raw literals n={n} block={}", body.len()), frame_of(2, body.len() as u32, &body), Some(lits)));
+        }
+        // raw and RLE blocks at and above the block maximum
+        for &n in &[0u32, 1, MAX_BLOCK - 1, MAX_BLOCK, MAX_BLOCK + 1, (1 << 21) - 1] {
+            let data: Vec<u8> = (0..n).map(|i| (i * 13 + i / 255) as u8).collect();
+            cases.push((format!("raw block n={n}"), frame_of(0, n, &data), if n <= MAX_BLOCK { Some(data) } else { None }));
+            cases.push((format!("rle block n={n}"), frame_of(1, n, &[0xA5]), if n <= MAX_BLOCK { Some(vec![0xA5; n as usize]) } else { None }));
+        }
+        // a compressed block declared above the maximum, and the reserved type
+        {
+            let mut body = spec_write_lit_header(1, 0, 5, 0);
+            body.push(1);
+            body.push(0);
+            body.resize(MAX_BLOCK as usize + 1, 0);
+            cases.push(("compressed block declared 128 KiB + 1".into(), frame_of(2, MAX_BLOCK + 1, &body), None));
+            cases.push(("reserved block type".into(), frame_of(3, 3, &[0, 0, 0]), None));
+        }
+        // literals + one match regenerating exactly the block maximum / one byte more (RLE literals, RLE tables)
+        for &total in &[MAX_BLOCK, MAX_BLOCK + 1] {
+            // 1000 literals then a match of (total - 1000) at offset 1: ML code 52 (base 65539, 16 bits), LL code 0.., via RLE tables
+            let ll = 1000u32;
+            let ml = total - ll;
+            let (llc, llx, llb) = spec_code(&LL_BASE, &LL_BITS, ll);
+            let (mlc, mlx, mlb) = spec_code(&ML_BASE, &ML_BITS, ml);
+            let mut body = spec_write_lit_header(1, 3, ll, 0);
+            body.push(0x11);
+            body.push(1); // one sequence
+            body.push(0b01_01_01_00); // RLE, RLE, RLE
+            body.push(llc);
+            body.push(2); // offset code 2: value 4 + 2 bits -> offset value 4 = offset 1
+            body.push(mlc);
+            // bitstream, read backwards: (states have 0 bits) offset extra (2 bits = 0), match extra, literal extra, then the end mark
+            let mut acc: u128 = 0;
+            let mut nb = 0u32;
+            let mut put = |v: u32, n: u8| {
+                acc |= u128::from(v) << nb;
+                nb += u32::from(n);
+            };
+            put(llx, llb);
+            put(mlx, mlb);
+            put(0, 2);
+            put(1, 1);
+            let nbytes = nb.div_ceil(8) as usize;
+            body.extend_from_slice(&acc.to_le_bytes()[..nbytes]);
+            let want = if total <= MAX_BLOCK { Some(vec![0x11; total as usize]) } else { None };
+            cases.push((format!("rle literals {ll} + one match of {ml}: block regenerates {total}"), frame_of(2, body.len() as u32, &body), want));
+        }
+        let mut accepted = 0u64;
+        let mut refused = 0u64;
+        for (what, frame, want) in &cases {
+            rec.eval();
+            let got = decode(frame);
+            let ok = match (&got, want) {
+                (Ok(Ok(out)), Some(w)) => out == w,
+                (Ok(Err(_)), None) => true,
+                _ => false,
+            };
+            if ok {
+                if want.is_some() {
+                    accepted += 1;
+                } else {
+                    refused += 1;
+                }
+                rec.distinct(fnv_str(&format!("boundary {}", what.split(" n=").next().unwrap_or(what))));
+            } else {
+                let got_s = match &got {
+                    Ok(Ok(out)) => format!("decoded {} bytes (fnv {:016x})", out.len(), fnv(out)),
+                    Ok(Err(e)) => format!("refused: {}", e.chars().take(200).collect::<String>()),
+                    Err(p) => format!("panic {}", p.what),
+                };
+                let want_s = match want {
+                    Some(w) => format!("decoded {} bytes (fnv {:016x})", w.len(), fnv(w)),
+                    None => "refused (size the format forbids)".into(),
+                };
+                mismatch(&rec, "boundary", what, json!({"frame_head": hex(&frame[..frame.len().min(32)]), "frame_len": frame.len()}), got_s, want_s);
+            }
+        }
+        sub.insert("boundary_frames".into(), json!({"cases": cases.len(), "accepted_as_required": accepted, "refused_as_required": refused}));
+    }
+
     rec.set_extra("subdomains", serde_json::Value::Object(sub));
     rec.set_extra("exhaustive", json!(false));
     rec.sample(json!({"domain": "ll", "input": 131071, "spec": format!("{:?}", spec_code(&LL_BASE, &LL_BITS, 131071))}));
